@@ -225,6 +225,8 @@ def effect_signature(prog, body):
         # are walked afterwards (for loop / iterator adapters over an iterator value) is not part of the signature
         if not targets and pth.startswith(("core::", "alloc::", "<core::", "<alloc::", "<&", "<T as ", "<I as ", "<F as ")):
             return
+        if not targets and ("core::convert::From<" in pth or "core::convert::Into<" in pth or "core::convert::TryFrom<" in pth):
+            return      # a pure conversion of a value (number <-> option name): where it is spelled is not an effect
         if targets and (pth.endswith(("::iter_mut", "::iter", "::into_iter", "::values_mut", "::values"))):
             pth = "iterate-mut" if "mut" in pth else "iterate"
         sig.add(("call", pth, tuple(targets)))
